@@ -12,6 +12,13 @@ def pTbf (s : State) : List Entry := s.tbf.filter (fun e => !(failedOf s).contai
 def sched (s : State) (choice : List Entry) : List Entry :=
   choice.map (fun c => { c with deadline := s.now + fetchTimeout })
 
+/-- generated: the pruning call precedes the empty-queue early return of `next_keys_to_fetch` -/
+theorem prune_first : pruneBeforeEmptyQueueReturn = true := rfl
+
+theorem nextKeys_core (s : State) (choice : List Entry) :
+    nextKeys dist s choice = nextKeysCore dist s choice := by
+  simp [nextKeys, prune_first]
+
 theorem nextKeys_eq (s : State) (choice : List Entry) :
     nextKeys dist s choice =
       if maxParallelFetch ≤ (pOgf s).length then
@@ -20,7 +27,8 @@ theorem nextKeys_eq (s : State) (choice : List Entry) :
         ({ s with ogf := pOgf s ++ sched s choice,
                   tbf := (pTbf s).filter (fun e => !hasKTH choice e.key e.ty e.holder) },
          { ret := sched s choice, failed := failedOf s })
-      else ({ s with ogf := pOgf s, tbf := pTbf s }, { failed := failedOf s, illegal := true }) := rfl
+      else ({ s with ogf := pOgf s, tbf := pTbf s }, { failed := failedOf s, illegal := true }) := by
+  rw [nextKeys_core]; rfl
 
 /-- the three outcomes of `next_keys_to_fetch` -/
 theorem nextKeys_cases (s : State) (choice : List Entry) :
